@@ -108,7 +108,12 @@ func runC08(c *Ctx) {
 	}
 	items := collectDocs(c, o, func(add func(string, []byte)) {
 		enumStrings([]byte{'a', ' ', '\n', '`', '*', '[', ']', '>', '-', '#', '<', '|', '1', '.', '=', '~'}, 3, func(b []byte) { add("exhaustive16<=3", b) })
-		for _, t := range []string{"<!-- a\n-->\nokay", "<?php\n?>\nokay", "<!X\n>\nokay", "<![CDATA[\n]]>\nokay", "foo <a href=\"/bar\"\ntitle=\"baz\">link</a>", "- a\n\n- b", "- a\n-\n- b", "1. a\n\n   b", "```\na\n\n\nb\n```", "    code\n\n    more", "[a]: /u\n\n[a]", "a\n===", "|a|\n|-|\n|b|"} {
+		nsd := 4000
+		if !c.Quick() {
+			nsd = 100000
+		}
+		specDocStream(c, nsd, add)
+		for _, t := range []string{"[foo\nbar]\n\n[foo bar]: /url", "![foo\nbar][]\n\n[foo bar]: /url", "<!-- a\n-->\nokay", "<?php\n?>\nokay", "<!X\n>\nokay", "<![CDATA[\n]]>\nokay", "foo <a href=\"/bar\"\ntitle=\"baz\">link</a>", "- a\n\n- b", "- a\n-\n- b", "1. a\n\n   b", "```\na\n\n\nb\n```", "    code\n\n    more", "[a]: /u\n\n[a]", "a\n===", "|a|\n|-|\n|b|"} {
 			add("targeted", []byte(t))
 		}
 	})
@@ -158,16 +163,6 @@ func runC08(c *Ctx) {
 // decided by rendering "D + marker line": the marker must come out as its own paragraph.
 const c09Marker = "zqzqmarker"
 
-func closedAtEnd(m mdT, a []byte) bool {
-	probe := append(append([]byte{}, a...), []byte("\n\n"+c09Marker+"\n")...)
-	out, e, p := convertSafe(m.md, probe)
-	if e != "" || p != "" {
-		return false
-	}
-	plain, _, _ := convertSafe(m.md, a)
-	return bytes.Equal(out, append(append([]byte{}, plain...), []byte("<p>"+c09Marker+"</p>\n")...))
-}
-
 func runC09(c *Ctx) {
 	c.Rep.Rule = "a case is (configuration, A, B) or (configuration, D, definition block); distinct by hash; non-trivial = A and B each contain a container or multi-line leaf block / D references a definition"
 	cfgs := []Cfg{{Ext: "core"}, {Ext: "gfm"}, {Ext: "core", Unsafe: true}}
@@ -178,7 +173,12 @@ func runC09(c *Ctx) {
 		pairsPer = 6
 	}
 	items := collectDocs(c, o, func(add func(string, []byte)) {
-		for _, t := range []string{"*\n", "- a\n-\n", "-\n  foo\n", "- a\n\n  b", "> a", "1. x\n2. y", "    code", "```\nopen", "<div>\nopen", "a\n===", "- [ ] t", "|a|\n|-|", "~~~\nx\n~~~", "* * *", "+\n", "1.\n", "-\n\n  x\n"} {
+		nsd := 3000
+		if !c.Quick() {
+			nsd = 100000
+		}
+		specDocStream(c, nsd, add)
+		for _, t := range []string{"<pre>x</pre>", "<script>1</script>", "<style>p{}</style>", "<textarea>t</textarea>", "<!-- c -->", "<?x y?>", "<!A b>", "<![CDATA[x]]>", "<div>x</div>", "a\n<pre>x</pre>", "*\n", "- a\n-\n", "-\n  foo\n", "- a\n\n  b", "> a", "1. x\n2. y", "    code", "```\nopen", "<div>\nopen", "a\n===", "- [ ] t", "|a|\n|-|", "~~~\nx\n~~~", "* * *", "+\n", "1.\n", "-\n\n  x\n"} {
 			add("targeted", []byte(t))
 		}
 	})
@@ -217,12 +217,17 @@ func runC09(c *Ctx) {
 	lawSweep(c, cfgs, pairs, "independence-law", func(d []byte) bool { return true }, func(m mdT, d []byte) (string, bool) {
 		i := bytes.IndexByte(d, 0xff)
 		a, b := d[:i], d[i+1:]
-		if !closedAtEnd(m, a) {
+		// eligibility is decided on the source text (a line scan that knows fences and the HTML
+		// kinds a blank line does not close), never by asking the implementation
+		if endsOpen(string(a)) || bytes.ContainsAny(a, "\t") {
 			return "", false
+		}
+		if !bytes.HasSuffix(a, []byte("\n")) {
+			a = append(append([]byte{}, a...), '\n') // a raw HTML line is rendered with or without its newline as written
 		}
 		ra, _, _ := convertSafe(m.md, a)
 		rb, _, _ := convertSafe(m.md, b)
-		doc := append(append(append([]byte{}, a...), []byte("\n\n# h\n\n")...), b...)
+		doc := append(append(append([]byte{}, a...), []byte("\n# h\n\n")...), b...)
 		got, e, p := convertSafe(m.md, doc)
 		if e != "" || p != "" {
 			return "", false
@@ -272,7 +277,7 @@ func runC09(c *Ctx) {
 	lawSweep(c, cfgs, defDocs, "definition-position-law", func(d []byte) bool { return true }, func(m mdT, d []byte) (string, bool) {
 		i := bytes.IndexByte(d, 0xff)
 		defs, body := d[:i], d[i+1:]
-		if !closedAtEnd(m, body) {
+		if endsOpen(string(body)) {
 			return "", false
 		}
 		// the moved block consists of link reference definitions only, by construction (the
